@@ -10,7 +10,7 @@ def run (c obs : String) : String × String × Bool :=
   let mc := cfg.contains "MC"
   let progs := segs.drop 2
   let outs := obs.splitOn " ## "
-  let rec go (ps os : List String) (i : Nat) (results : List Shards) (ctrs : List (List Nat)) : String × String × Bool :=
+  let rec go (ps os : List String) (i : Nat) (results : List Shards) (ctrs : List C01.RunCtr) : String × String × Bool :=
     match ps, os with
     | [], _ => ("", "ok", true)
     | p :: ps', o :: os' =>
